@@ -1,13 +1,13 @@
 (* C03 — every encoded packet ends with the correct SMBus PEC.  Property theorems only. *)
 Require Import Base Crc Bitfield Headers Encode Decode Process Ops Spec Judge.
-Require Import CrcFacts PecFacts Hist StepsEncode Extra.
+Require Import CrcFacts PecFacts Hist StepsEncode C03Full Extra.
 Open Scope N_scope.
 
 (* (1) For every operation on every context in either overflow mode, a successful encode leaves a buffer whose
    byte n-1 is the PEC (model of smbus_pec::pec) of bytes 0..n-2, and the CRC of all n bytes is 0. *)
 Theorem C03_encoded_packet_ends_with_pec :
   forall ovf c o, s_o (c03_step o (snd (step ovf c o))) = true.
-Proof. exact c03_holds. Qed.
+Proof. exact c03_step_all. Qed.
 
 (* (1') the same, as the oracle is run over whole histories *)
 Theorem C03_oracle_holds_on_model : holds_on_model 3.
